@@ -20,14 +20,15 @@ def run(chk):
     if nb != expect:
         raise core.MachineryError(f'lattice enumeration: {nb} driver cases, MC instance {expect}')
     chk.validate('posteriors', 'Trace_MM', 'Trace_MM.cfg', recs, driver='mm', jobs=14)
-    good = [x for x in recs if x['kind'] == 'posterior' and x['exc'] == '' and x['full'][-2] >= 2
-            and 'call=predict' in x['fp'] and 'sam=False' in x['fp']][0]
+    goods = [x for x in recs if x['kind'] == 'posterior' and x['exc'] == '' and x['full'][-2] >= 2
+            and 'call=predict' in x['fp'] and 'sam=False' in x['fp']]
+    good = goods[0]
 
     def corrupt(x):
         d = x['aff']['data']
         d[0], d[x['full'][-1]] = d[x['full'][-1]], d[0]
         return x
-    core.binding_demo(chk, 'bind-bayes', 'Trace_MM', 'Trace_MM.cfg', good, corrupt, 'bayes')
+    core.binding_demo(chk, 'bind-bayes', 'Trace_MM', 'Trace_MM.cfg', good, corrupt, 'bayes', candidates=goods[1:])
     chk.assumptions = ['component likelihoods enter as exp(lp - max_k lp) computed by the encoder from the model own '
                        'log_pdf (the one trusted scalar step); relations in 20-bit Flt, slack 64*2^-19',
                        'explicit exceptions accepted: AssertionError, ValueError, LinAlgError, NotImplementedError']
